@@ -425,7 +425,7 @@ func (f *fixture) get(rid string) (string, error) {
 	}
 	_, resp := f.rn.Replies(reply)
 	if len(resp) != 1 {
-		return "", fmt.Errorf("get %s: %d responses", rid, len(resp))
+		return "", behaviour(fmt.Sprintf("get %s: %d responses", rid, len(resp)))
 	}
 	var p struct {
 		Result *struct{ Model, Collection json.RawMessage }
@@ -436,13 +436,27 @@ func (f *fixture) get(rid string) (string, error) {
 	case p.Error != nil && p.Error.Code == res.CodeNotFound:
 		return "", nil
 	case p.Error != nil:
-		return "", fmt.Errorf("get %s: %s", rid, resp[0])
+		return "", behaviour(fmt.Sprintf("a get of %s is answered with %s: neither the resource nor system.notFound", rid, resp[0]))
 	case p.Result != nil && p.Result.Model != nil:
 		return canon(p.Result.Model), nil
 	case p.Result != nil && p.Result.Collection != nil:
 		return canon(p.Result.Collection), nil
 	}
-	return "", fmt.Errorf("get %s: %s", rid, resp[0])
+	return "", behaviour(fmt.Sprintf("a get of %s is answered with %s", rid, resp[0]))
+}
+
+// behaviour is an error that describes what the service did (as opposed to the harness
+// failing to bring a situation about): a verdict, not an inconclusive run.
+type behaviour string
+
+func (b behaviour) Error() string { return string(b) }
+
+// verdict turns an error of the fixture into the message of the case.
+func verdict(err error) string {
+	if _, ok := err.(behaviour); ok || strings.HasPrefix(err.Error(), "VERIF-INCONCLUSIVE") {
+		return err.Error()
+	}
+	return "VERIF-INCONCLUSIVE: " + err.Error()
 }
 
 // client state: "" = missing, else canonical JSON
@@ -511,7 +525,7 @@ func (cl client) apply(rid, name string, data []byte, refetch func() (string, er
 		}
 		v, err := refetch()
 		if err != nil {
-			return "VERIF-INCONCLUSIVE: " + err.Error()
+			return verdict(err)
 		}
 		cl[rid] = v
 	case "delete":
@@ -557,7 +571,7 @@ func (f *fixture) mutate(tx store.WriteTxn, m Mut) error {
 func run(c Case) (msg string, nontrivial bool) {
 	f, err := newFixture(c.Cfg)
 	if err != nil {
-		return "VERIF-INCONCLUSIVE: " + err.Error(), false
+		return verdict(err), false
 	}
 	defer f.cleanup()
 	ids := map[string]bool{}
@@ -576,7 +590,7 @@ func run(c Case) (msg string, nontrivial bool) {
 	for id := range ids {
 		v, err := f.get(ridFor(id))
 		if err != nil {
-			return "VERIF-INCONCLUSIVE: " + err.Error(), false
+			return verdict(err), false
 		}
 		cl[ridFor(id)] = v
 	}
@@ -692,7 +706,7 @@ func run(c Case) (msg string, nontrivial bool) {
 		}
 		fresh, err := f.get(rid)
 		if err != nil {
-			return "VERIF-INCONCLUSIVE: " + err.Error(), nontrivial
+			return verdict(err), nontrivial
 		}
 		if fresh != sAfter {
 			return fmt.Sprintf("%s: fresh get returns %q, the served representation should be %q", what, fresh, sAfter), nontrivial
